@@ -21,6 +21,9 @@ thread_local! {
     pub static MEASURE_CALLS: Cell<u64> = Cell::new(0);
     /// the measure function panics once it has been called more often than this (lets counting oracles stop runaway passes)
     pub static MEASURE_LIMIT: Cell<u64> = Cell::new(u64::MAX);
+    /// what the measure function answers for a leaf WITHOUT node context (default: zero, like taffy's own tests; some
+    /// checks set a non-zero size: the measure function is the user's, it may size such leaves however it likes)
+    pub static NOCTX_SIZE: Cell<(f32, f32)> = Cell::new((0.0, 0.0));
 }
 
 pub fn measure(known: Size<Option<f32>>, avail: Size<AvailableSpace>, ctx: Option<&mut Ctx>) -> Size<f32> {
@@ -32,7 +35,10 @@ pub fn measure(known: Size<Option<f32>>, avail: Size<AvailableSpace>, ctx: Optio
         return Size { width: w, height: h };
     }
     let r = match ctx {
-        None => Size::ZERO,
+        None => {
+            let (w, h) = NOCTX_SIZE.with(|c| c.get());
+            Size { width: w, height: h }
+        }
         Some(Ctx::Fixed(w, h)) => Size { width: *w, height: *h },
         Some(Ctx::Text(n, unit)) => {
             let n = *n as f32;
